@@ -59,6 +59,48 @@ Theorem c12_batched_noncomplying_rejected :
 Proof. exact c12_batched_noncomplying_b. Qed.
 Print Assumptions c12_batched_noncomplying_rejected.
 
+(** Batches that mix handles sharing one batch function (an unrestricted and a restricted handle, two shard
+    limits, on one batching context): every value tuple of every combined statement is the tuple of a
+    caller of that invocation who passed the checks of its own handle, and it pins every limit column of
+    that handle; a statement without WHERE is only sent when a caller with an empty filter passed. *)
+Theorem c12_mixed_handle_batches_justified :
+  forall t cs arrival b,
+    batched_multi_wfb t cs = true -> arrival_consistent_multi t cs arrival = true -> In b arrival ->
+    match make_batch_query (map (dfilter_of t) (map (nth_filter (map snd cs)) b)) with
+    | Some gs => Forall (fun g => Forall (tuple_justified t cs b (fst g)) (snd g)) gs
+    | None => exists i, In i b
+                /\ caller_outcome (fst (nth_caller cs i)) t (snd (nth_caller cs i)) = Proceeds
+                /\ dfilter_of t (snd (nth_caller cs i)) = []
+    end.
+Proof. exact c12_multi_justified_b. Qed.
+Print Assumptions c12_mixed_handle_batches_justified.
+
+Theorem c12_mixed_handle_noncomplying_rejected :
+  forall t cs arrival i l,
+    batched_multi_wfb t cs = true -> i < List.length cs ->
+    arrival_consistent_multi t cs arrival = true ->
+    In l (enforced_limits (fst (nth_caller cs i))) ->
+    ~ Forall (event_confined t l) (fst (run no_limits t (mk_ctx false false) (OQuery (snd (nth_caller cs i)) None))) ->
+    nth i (snd (run_batched_multi t cs arrival)) Proceeds <> Proceeds /\ ~ In i (List.concat arrival).
+Proof. exact c12_multi_noncomplying_b. Qed.
+Print Assumptions c12_mixed_handle_noncomplying_rejected.
+
+(** Any sequence of operations inside one transaction of the caller. *)
+Theorem c12_transaction_sequence_confined :
+  forall h t bt ops l,
+    Forall (fun o => op_wfb h t o = true) ops -> In l (enforced_limits h) ->
+    Forall (event_confined t l) (fst (run_seq h t bt ops)).
+Proof. exact run_seq_confined. Qed.
+Print Assumptions c12_transaction_sequence_confined.
+
+(** SelectOptions.Where is opaque: whatever truth value the free text takes on a row, a row selected by
+    "(filter) AND (free text)" satisfies the filter part and therefore lies in the shard. *)
+Theorem c12_free_text_cannot_widen_the_filter :
+  forall w k d r (free_text : tri),
+    where_pins w k d -> tri_and (eval_wclause w r) free_text = TT -> in_shard (cell r k) d.
+Proof. exact where_pins_sound_with_free_text. Qed.
+Print Assumptions c12_free_text_cannot_widen_the_filter.
+
 (** Meaning of the syntactic predicate under SQL's three-valued semantics: a row that satisfies a WHERE
     clause which pins column k to d has d in column k (NULL for a NULL limit value). *)
 Theorem c12_confined_where_selects_only_shard_rows :
@@ -134,4 +176,13 @@ Example ex_bulk_insert_rolls_back :
       (OInsertRows [[GInt KI64 "" 0; GInt KI64 "" 7; GStr "" "a"; GNilPtr (TyStr "")];
                     [GInt KI64 "" 0; GInt KI64 "" 8; GStr "" "b"; GNilPtr (TyStr "")]] 1)
   = ([EBegin; EStmt (SInsert "users" ["shard"; "name"; "nick"] [[DInt 7; DStr "a"; DNull]]); ERollback], Rejected).
+Proof. vm_compute. reflexivity. Qed.
+
+Example ex_mixed_batch :
+  run_batched_multi ex_users
+    [(ex_handle, ex_filter); (unrestricted, [("name", GStr "" "al")]); (ex_handle, [("name", GStr "" "al")])]
+    [[1; 0]]
+  = ([EStmt (SSelect "users" ["id"; "shard"; "name"; "nick"]
+        (WBatch [(["name"], [[DStr "al"]]); (["name"; "shard"], [[DStr "bob"; DInt 7]])]) None)],
+     [Proceeds; Proceeds; Rejected]).
 Proof. vm_compute. reflexivity. Qed.
